@@ -6,6 +6,7 @@ package ep
 
 import (
 	"bytes"
+	"context"
 	"net"
 	"sync"
 	"sync/atomic"
@@ -46,7 +47,6 @@ type Endpoint struct {
 	Port          int
 	mode          int32
 	ThrottleBytes int
-	RcvBuf        int   // SO_RCVBUF for accepted connections (0 = default)
 	CloseAfter    int64 // close each connection after this many bytes (0 = never)
 	mu            sync.Mutex
 	incs          []*Incarnation
@@ -57,20 +57,35 @@ type Endpoint struct {
 }
 
 // New starts a listening endpoint on a free loopback port.
-func New() *Endpoint { return NewOn("127.0.0.1:0") }
+func New() *Endpoint { return NewOnBuf("127.0.0.1:0", 0) }
+
+// NewSmallBuf: like New, with SO_RCVBUF set on the LISTENING socket (inherited by
+// accepted connections, so the TCP window is small from the handshake on; shrinking the
+// buffer of an established connection makes the kernel drop in-flight data and the
+// sender back off for minutes).
+func NewSmallBuf(rcvbuf int) *Endpoint { return NewOnBuf("127.0.0.1:0", rcvbuf) }
 
 // NewOn listens on a specific address (used to bring an endpoint back up on the same port).
-func NewOn(addr string) *Endpoint {
+func NewOn(addr string) *Endpoint { return NewOnBuf(addr, 0) }
+
+func NewOnBuf(addr string, rcvbuf int) *Endpoint {
 	var ln *net.TCPListener
 	var err error
+	lc := net.ListenConfig{Control: func(network, address string, c syscall.RawConn) error {
+		var serr error
+		c.Control(func(fd uintptr) {
+			syscall.SetsockoptInt(int(fd), syscall.SOL_SOCKET, syscall.SO_REUSEADDR, 1)
+			if rcvbuf > 0 {
+				serr = syscall.SetsockoptInt(int(fd), syscall.SOL_SOCKET, syscall.SO_RCVBUF, rcvbuf)
+			}
+		})
+		return serr
+	}}
 	for try := 0; try < 200; try++ {
-		var a *net.TCPAddr
-		a, err = net.ResolveTCPAddr("tcp", addr)
-		if err != nil {
-			break
-		}
-		ln, err = net.ListenTCP("tcp", a)
+		var l net.Listener
+		l, err = lc.Listen(context.Background(), "tcp", addr)
 		if err == nil {
+			ln = l.(*net.TCPListener)
 			break
 		}
 		time.Sleep(5 * time.Millisecond)
@@ -94,9 +109,6 @@ func (e *Endpoint) acceptLoop() {
 		c, err := e.ln.AcceptTCP()
 		if err != nil {
 			return
-		}
-		if e.RcvBuf > 0 {
-			c.SetReadBuffer(e.RcvBuf)
 		}
 		inc := &Incarnation{conn: c}
 		e.mu.Lock()
